@@ -303,5 +303,25 @@ def c15(c):
     if c.tier == 'thorough':
         progs.append(dict(src='c15_rollback.cpp', build='memcheck', variants=_t_engine_variants(ENGINES9[:2]), shards={'thorough': 2}, args=['--tier', 'quick']))
     c.std(progs)
-    for k in ('rollbacks_to_0', 'rollbacks_to_n', 'rollbacks_beyond_n', 'rollbacks_to_middle', 'reloaded_before_rollback', 'resumes_after_rollback'):
+    for k in ('rollbacks_to_0', 'rollbacks_to_n', 'rollbacks_beyond_n', 'rollbacks_to_middle', 'reloaded_before_rollback', 'resumes_after_rollback', 'second_rollbacks_after_resume'):
+        c.require(k)
+
+
+@prop('C03',
+      rule="case = one n-iteration run (n 2..4, thorough 2..6, unequal calls) of one of five flavours (PLAIN with a 1-d and a 2-d distribution, VEGAS "
+           "default grid with distributions, VEGAS user grid, multi-channel default, multi-channel user weights with a disabled channel and "
+           "distributions; names from {d1, 'two words', '', ' ', '  lead', 'trail  ', '#x', '12 3', 300 chars}) for float/double/long double x "
+           "engines mt19937 / minstd_rand / ranlux48 (thorough: all nine), executed uninterrupted and under EVERY one of the 2^(n-1)-1 non-empty "
+           "sets of interruption points, each cut going checkpoint -> text -> checkpoint via a string or via the file the built-in callback "
+           "writes (silent_and_write_chkpt), optionally with a target precision chosen to stop the run early; the final texts must be byte equal. "
+           "non-trivial = at least one cut and (adaptive state changed between first and last result, or distributions present); "
+           "distinct = (configuration, set of cuts).",
+      assumptions=["a user who sees the callback stop the run does not resume it (segments after a stop are not executed)",
+                   "all compositions are enumerated per sampled configuration; configurations are seeded",
+                   "names containing a newline are excluded by the property"])
+def c03(c):
+    eng = ENGINES9 if c.tier == 'thorough' else ENGINES9[:3]
+    c.std([dict(src='c03_resume.cpp', build='asan', variants=_t_engine_variants(eng), shards={'quick': 2, 'thorough': 1})])
+    for k in ('compositions_checked', 'interruptions', 'cases_file_transport', 'cases_text_transport', 'runs_stopped_early_by_target',
+              'cases_plain+dists', 'cases_vegas-default+dists', 'cases_vegas-user-grid', 'cases_mc-default', 'cases_mc-user-weights+dists'):
         c.require(k)
